@@ -348,6 +348,64 @@ func runC12(c *mon.Ctx) {
 		}
 	}
 
+	// ---- messages whose inflated length is an exact power-of-two multiple of their compressed length (where buffers
+	// that grow by doubling from a multiple of the input size end exactly at the end of the stream) ----
+	qk := 0
+	for _, ep := range eps {
+		for _, m := range []int{2, 4, 8, 16, 32, 64, 128, 256} {
+			for _, lvl := range []int{6, 9} {
+				qk++
+				cs := c.Begin("ratio-boundary", qk)
+				if cs == nil {
+					continue
+				}
+				// fixed point: pad the trailing comment until len(doc) == m * len(deflate(doc))
+				var doc string
+				var comp []byte
+				signed := false
+				found := false
+				n := int64(8192)
+				for it := 0; it < 200 && !found; it++ {
+					var what string
+					doc, signed, what = pad(ep.kind, n, "p")
+					_ = what
+					comp = sim.Deflate([]byte(doc), lvl)
+					want := int64(m * len(comp))
+					switch {
+					case int64(len(doc)) == want:
+						found = true
+					case it%2 == 0:
+						n = want
+					default:
+						n += int64(1 + it/2) // step off cycles of the iteration
+					}
+				}
+				if !found {
+					cs.Outcome("no-exact-ratio-found")
+					continue
+				}
+				cs.Desc("entry=%s inflated=%d = %d x compressed=%d level=%d signed=%v", ep.name, len(doc), m, len(comp), lvl, signed)
+				cs.Input([]byte(trunc(doc, 1024)))
+				var gerr, terr error
+				pv, stack := mon.Guard(func() {
+					_, gerr = ep.call(mkSP(signed, 0), base64.StdEncoding.EncodeToString(comp))
+					_, terr = ep.call(mkSP(signed, 0), base64.StdEncoding.EncodeToString([]byte(doc)))
+				})
+				if pv != nil {
+					cs.Violation("panic", "panic: %v\n%s", pv, trunc(stack, 800))
+					continue
+				}
+				cs.Nontrivial(cs.Description())
+				if gc, tc := c12Class(gerr), c12Class(terr); gc != tc {
+					cs.Outcome("twin-differs")
+					cs.Violation("not-transparent", "compressed outcome %q (%v) differs from the uncompressed twin's %q (%v)", gc, gerr, tc, terr)
+				} else {
+					cs.Outcome("ratio:" + gc)
+				}
+			}
+		}
+	}
+
 	// ---- presentations whose first bytes look like text: legal DEFLATE all the same ----
 	ck := 0
 	for _, L := range []int64{0, 64 << 10} {
